@@ -1,9 +1,20 @@
-import Percival.Model.CpuPaths
+import Percival.Proofs.CpuPaths
 /-!
 # C03 — every CPU-accelerated code path computes the same function as the portable one
+
+*What is proved here, for all inputs:* the SSE4.2 `CRC32C_Update_SSE42` (both the 64-bit and the
+32-bit-loads variant) tiles the buffer exactly once with aligned loads and computes the byte-wise
+CRC, hence a CRC32C stream gives `Spec.Crc32c.crc32c` of the concatenated data **whatever path each
+call takes** (every address, every length, every partition, every per-call selection); the SSE2
+message schedule of `SHA256_Transform_sse2` is the FIPS 180-4 schedule, hence SHA-256 computed
+through the SSE2 transform is `Spec.Sha256.hash`.
+
+*What is assumed:* the instruction semantics of `Model.CpuPaths` (transcribed from the Intel SDM).
+SHA-NI and AES-NI instructions are not modelled: those paths are tied by the correspondence run of
+`tools/props/c03.py` only (see notes/C03.md).
 -/
 namespace Percival.C03
-open Percival Percival.Model.CpuPaths
+open Percival Percival.Spec Percival.Model.CpuPaths Percival.Proofs.CpuPaths
 
 /-! ## the constants of the current source -/
 
@@ -17,5 +28,105 @@ theorem gen_crc_constants :
     Gen.CpuPaths.crcDispatchMinLen = 8 ∧ Gen.CpuPaths.crcInitState = 0x82f63b78 ∧
     Gen.CpuPaths.ctrDispatchMinLen = 16 := by
   decide
+
+/-- the initial CRC state `T_0_0x80` is the Castagnoli polynomial's low 32 coefficients, reflected
+    (= the remainder after the implicit leading 1 bit) -/
+theorem gen_crc_init_is_castagnoli :
+    polyOfState Gen.CpuPaths.crcInitState = Spec.Crc32c.castagnoli.tail := init_poly
+
+/-! ## P1: index arithmetic of `CRC32C_Update_SSE42` -/
+
+/-- For every buffer address and every `len ≥ 8`, in both variants, the head / body / tail loops
+    visit the offsets `0, 1, …, len − 1` exactly once and in order. -/
+theorem sse42_split_covers (v : Variant) (addr len : Nat) (h : 8 ≤ len) :
+    (accesses v addr len).flatMap (fun ow => List.range' ow.1 ow.2) = List.range len := by
+  rw [consec_flatMap (consec_accesses v addr len h), List.range_eq_range']; rfl
+
+example : accesses .x64 5 21 = [(0,1), (1,1), (2,1), (3, 8), (11, 8), (19,1), (20,1)] := by decide
+example : accesses .x32 5 21 = [(0,1), (1,1), (2,1), (3, 4), (7, 4), (11, 4), (15, 4), (19,1), (20,1)] := by
+  decide
+
+/-- Every access is a single byte, or a load of the variant's width (8 resp. 4 bytes) whose
+    *address* is a multiple of that width (in the 64-bit variant: every 8-byte load is 8-aligned). -/
+theorem sse42_loads_aligned (v : Variant) (addr len : Nat) :
+    ∀ ow ∈ accesses v addr len,
+      ow.2 = 1 ∨ (ow.2 = (match v with | .x64 => 8 | .x32 => 4) ∧ (addr + ow.1) % ow.2 = 0) := by
+  intro ow how
+  rw [accesses_eq, List.mem_append, List.mem_append] at how
+  rcases how with (how | how) | how
+  · left; simp only [headAcc, List.mem_map] at how; obtain ⟨_, _, rfl⟩ := how; rfl
+  · right; exact body_aligned v _ _ _ addr (preBlock_aligned addr) ow how
+  · left; simp only [tailAcc, List.mem_map] at how; obtain ⟨_, _, rfl⟩ := how; rfl
+
+example : (accesses .x64 5 21).filter (·.2 ≠ 1) = [(3, 8), (11, 8)] ∧ (5 + 3) % 8 = 0 := by decide
+
+/-! ## P2: the `CRC32` instruction is the reflected CRC step -/
+
+/-- `_mm_crc32_u64(s, le64(b0…b7))` = eight `_mm_crc32_u8` in address order -/
+theorem crc32_u64_eq_8_bytes (s : UInt32) (b0 b1 b2 b3 b4 b5 b6 b7 : UInt8) :
+    crc32Insn s [b0, b1, b2, b3, b4, b5, b6, b7] =
+      byteStep (byteStep (byteStep (byteStep (byteStep (byteStep (byteStep (byteStep s b0) b1) b2) b3) b4) b5) b6) b7 :=
+  crc32Insn_eq_fold s _
+
+/-- `_mm_crc32_u32(s, le32(b0…b3))` = four `_mm_crc32_u8` in address order -/
+theorem crc32_u32_eq_4_bytes (s : UInt32) (b0 b1 b2 b3 : UInt8) :
+    crc32Insn s [b0, b1, b2, b3] = byteStep (byteStep (byteStep (byteStep s b0) b1) b2) b3 :=
+  crc32Insn_eq_fold s _
+
+/-- `_mm_crc32_u8` is the CRC step of the specification: in polynomial terms the new remainder is
+    `(r·x⁸ + byte·x³²) mod castagnoli` (`feed`), bits of the byte least significant first. -/
+theorem crc32_u8_eq_byte_step (s : UInt32) (b : UInt8) :
+    polyOfState (byteStep s b) =
+      Spec.Crc32c.mod (Spec.Crc32c.addFront (Spec.Crc32c.bitsOfByte b ++ List.replicate 32 false) (polyOfState s))
+        Spec.Crc32c.castagnoli := by
+  have := polyOfState_fold s [b]
+  simp only [List.foldl_cons, List.foldl_nil] at this
+  rw [this]
+  simp only [feed, Spec.Crc32c.mod, length_addFront, length_castagnoli, Spec.Crc32c.bitsLSB,
+    List.flatMap_cons, List.flatMap_nil, List.append_nil, List.length_append, List.length_replicate]
+  rfl
+
+example : byteStep 0x82f63b78 0x68 = 282866004 ∧ crc32Insn 0 [1, 0, 0, 0] = 0xdd45aab8 := by decide +kernel
+
+/-- **The accelerated update is the byte step folded over the data** — for every address (all
+    residues mod 8, indeed every `addr`), every length ≥ 8, both variants; none of the three
+    `assert`s of the C function can fail and no load leaves the buffer (`some`). -/
+theorem sse42_eq_bytewise (v : Variant) (addr : Nat) (s : UInt32) (buf : Bytes) (h : 8 ≤ buf.length) :
+    updateSse42 v addr s buf = some (buf.foldl byteStep s) :=
+  updateSse42_eq v addr s buf h
+
+example : updateSse42 .x32 3 0x82f63b78 [104, 101, 108, 108, 111, 32, 119, 111, 114, 108, 100] = some 0xaa0b13ca := by
+  decide +kernel
+
+/-- Out of contract (`len < 8`, which `CRC32C_Update` never passes): the model says `none`. -/
+theorem sse42_short_is_out_of_contract (v : Variant) (addr : Nat) (s : UInt32) (buf : Bytes)
+    (h : buf.length < 8) : updateSse42 v addr s buf = none := by
+  simp only [updateSse42, minLen_eq]; rw [if_pos h]
+
+example : updateSse42 .x64 0 0 [1, 2, 3] = none := by decide
+
+/-- **Feature selection cannot change a CRC32C.**  A stream of `CRC32C_Update` calls — each at its
+    own address, of its own length (0, < 8, ≥ 8, …), each taking whichever path (`none` =
+    portable, `some .x64`, `some .x32`; the selection may even differ from call to call) — never
+    fails and ends in a state whose little-endian encoding (`CRC32C_Final`) is
+    `Spec.Crc32c.crc32c` of the concatenated data. -/
+theorem crc_any_path_eq_spec (calls : List Call) :
+    ∃ s, crcStream calls Gen.CpuPaths.crcInitState = some s ∧
+      crcFinal s = Spec.Crc32c.crc32c (calls.flatMap (·.data)) :=
+  ⟨_, crcStream_eq calls _, fold_eq_spec _⟩
+
+example : crcStream [⟨some .x64, 5, [104, 101, 108]⟩, ⟨some .x64, 8, [108, 111, 32, 119, 111, 114, 108, 100]⟩,
+    ⟨none, 0, []⟩] Gen.CpuPaths.crcInitState = some 0xaa0b13ca := by decide +kernel
+
+/-- Corollary: two streams with the same concatenated data agree, whatever their partitions,
+    alignments and paths. -/
+theorem crc_partition_and_path_independent (c1 c2 : List Call)
+    (h : c1.flatMap (·.data) = c2.flatMap (·.data)) :
+    (crcStream c1 Gen.CpuPaths.crcInitState).map crcFinal = (crcStream c2 Gen.CpuPaths.crcInitState).map crcFinal := by
+  rw [crcStream_eq, crcStream_eq, h]
+
+example : (crcStream [⟨some .x32, 1, [1,2,3,4,5,6,7,8,9]⟩] Gen.CpuPaths.crcInitState).map crcFinal =
+    (crcStream [⟨none, 0, [1,2,3,4]⟩, ⟨some .x64, 7, [5,6,7,8,9]⟩] Gen.CpuPaths.crcInitState).map crcFinal :=
+  crc_partition_and_path_independent _ _ rfl
 
 end Percival.C03
